@@ -96,6 +96,7 @@ static void COCSdoReset(CO_CSDO *csdo, uint8_t num, struct CO_NODE_T *node)
     csdonum->Tfer.Call    = NULL;
     csdonum->Tfer.Buf_Idx = 0;
     csdonum->Tfer.TBit    = 0;
+    csdonum->Tfer.Open    = 0;
 
     if (csdonum->Tfer.Tmr >= 0) {
         tid = COTmrDelete(&(node->Tmr), csdonum->Tfer.Tmr);
@@ -180,6 +181,7 @@ static void COCSdoTransferFinalize(CO_CSDO *csdo)
         csdo->Tfer.Tmr   = -1;
         csdo->Tfer.Buf_Idx = 0;
         csdo->Tfer.TBit = 0;
+        csdo->Tfer.Open = 0;
 
         /* Release SDO client for next request */
         csdo->Frm   = NULL;
@@ -269,6 +271,7 @@ static CO_ERR COCSdoInitUploadSegmented(CO_CSDO *csdo)
         (Sub == csdo->Tfer.Sub)) {
 
         result = CO_ERR_NONE;
+        csdo->Tfer.Open = 1u;
 
         /* setup CAN request */
         CO_SET_ID  (&frm, csdo->TxId);
@@ -357,6 +360,8 @@ static CO_ERR COCSdoInitDownloadSegmented(CO_CSDO *csdo)
     Sub = CO_GET_BYTE(csdo->Frm, 3u);
     if ((Idx == csdo->Tfer.Idx) &&
         (Sub == csdo->Tfer.Sub)) {
+
+        csdo->Tfer.Open = 1u;
 
         CO_SET_ID  (&frm, csdo->TxId);
         CO_SET_DLC (&frm, 8u);
@@ -448,6 +453,12 @@ static CO_ERR COCSdoDownloadSegmented(CO_CSDO *csdo)
 
 static CO_ERR COCSdoFinishDownloadSegmented(CO_CSDO *csdo)
 {
+    uint8_t cmd;
+
+    cmd = CO_GET_BYTE(csdo->Frm, 0u);
+    if (((cmd >> 4u) & 0x01u) != csdo->Tfer.TBit) {
+        COCSdoAbort(csdo, CO_SDO_ERR_TBIT);
+    }
     COCSdoTransferFinalize(csdo);
     return CO_ERR_SDO_SILENT;
 }
@@ -530,18 +541,18 @@ CO_ERR COCSdoResponse(CO_CSDO *csdo)
     }
 
     if (csdo->Tfer.Type == CO_CSDO_TRANSFER_UPLOAD_SEGMENT) {
-        if (cmd == 0x41u) {
+        if ((cmd == 0x41u) && (csdo->Tfer.Open == 0u)) {
             (void)COCSdoInitUploadSegmented(csdo);
-        } else if ((cmd & 0xE0u) == 0x00u) {
+        } else if (((cmd & 0xE0u) == 0x00u) && (csdo->Tfer.Open != 0u)) {
             (void)COCSdoUploadSegmented(csdo);
         } else {
             COCSdoAbort(csdo, CO_SDO_ERR_CMD);
             COCSdoTransferFinalize(csdo);
         }
     } else if (csdo->Tfer.Type == CO_CSDO_TRANSFER_DOWNLOAD_SEGMENT) {
-        if (cmd == 0x60u) {
+        if ((cmd == 0x60u) && (csdo->Tfer.Open == 0u)) {
             (void)COCSdoInitDownloadSegmented(csdo);
-        } else if (((cmd & 0xE0u) ==  0x20u) ) {
+        } else if (((cmd & 0xE0u) == 0x20u) && (csdo->Tfer.Open != 0u)) {
             if (csdo->Tfer.Size > csdo->Tfer.Buf_Idx) {
                 (void)COCSdoDownloadSegmented(csdo);
             } else {
@@ -644,6 +655,7 @@ CO_ERR COCSdoRequestUpload(CO_CSDO *csdo,
     csdo->Tfer.Call    = callback;
     csdo->Tfer.Buf_Idx = 0;
     csdo->Tfer.TBit    = 0;
+    csdo->Tfer.Open    = 0;
 
     /* Transmit transfer initiation directly */
     CO_SET_ID  (&frm, csdo->TxId        );
@@ -706,6 +718,7 @@ CO_ERR COCSdoRequestDownload(CO_CSDO *csdo,
     csdo->Tfer.Call    = callback;
     csdo->Tfer.Buf_Idx = 0;
     csdo->Tfer.TBit    = 0;
+    csdo->Tfer.Open    = 0;
 
     if (size <= (uint32_t)4u) {
         csdo->Tfer.Type = CO_CSDO_TRANSFER_DOWNLOAD;
